@@ -203,6 +203,7 @@ TrReadHdr ==
                        <<"C11.roundtrip", (e.res.kind = "ok" /\ hout'.kind = "ok") => SentOK(e, e.res.header)>>,
                        <<"C10.roundtrip", (wrathSrv /\ e.res.kind = "ok" /\ hout'.kind = "ok") => SentSrv(e, e.res.header)>>,
                        <<"C10.readResult", wrathSrv => e.res.kind = hout'.kind>>,
+                       <<"C12.indep", HasF(e, "otherSame") => e.otherSame>>,     \* the sending direction of the object is as it was
                        <<"C10.consumedExactly", (wrathSrv /\ hout'.kind = "ok") =>
                             e.unread = ScriptBytes(e.script) - hout'.used>>,
                        << p \o ".bytes", (e.res.kind = "ok" /\ hout'.kind = "ok") => e.res.header = hout'.header>>,
@@ -228,6 +229,8 @@ TrWriteHdr ==
                              (e.res.kind = "ok" => e.delivered = e.raw.out))>>,
                        <<"C11.wire", e.wire = WireOf(hf, e.kind, e.size, e.opcode)>>,
                        <<"C11.delivered", Len(e.delivered) = Len(hout'.delivered)>>,
+                       \* the RECEIVING direction of the same object is as it was (recorded before and after the call)
+                       <<"C12.indep", HasF(e, "otherSame") => e.otherSame>>,
                        << p \o ".bytes", e.delivered = hout'.delivered>>,
                        << p \o ".state", StOK(half'[e.h], e.st)>> >>,
                     {"WriteHdr", "WriteHdr." \o hf.exp \o "." \o e.kind, "via." \o e.via}
